@@ -1,7 +1,7 @@
 (* C01 - facts about the tables regenerated from /repo on every run
    (coq/gen/C01Tables.v: every protocol version of the three nets with the
    quorum the real OverThreshold computes for its thresholds). *)
-From VF.C01 Require Import Model.
+From VF.C01 Require Import Model ModelH.
 From VF.gen Require Import C01Tables.
 Local Open Scope N_scope.
 
@@ -26,3 +26,17 @@ Proof. vm_compute. discriminate. Qed.
 (* the constants the model hard-codes are the ones of the working tree *)
 Lemma real_constants : go_cht_frequency = cht_frequency /\ go_steps = (step_proposal, step_precommit, step_certificate).
 Proof. split; vm_compute; reflexivity. Qed.
+
+(* look-back arithmetic: the constant the model uses for the version look-back is
+   core.protocolRoundBack, and in every protocol version the validator set is read at a
+   strictly older height than the seed (StakeLookBack > SeedLookBack > 0), so that the
+   two look-backs of verifyConsensusField name different blocks *)
+Definition lookback_ok (e : N * N * N) : bool :=
+  let '(_, stake, seed) := e in (0 <? seed) && (seed <? stake).
+
+Lemma real_lookbacks_ok : forallb lookback_ok go_lookbacks = true.
+Proof. vm_compute. reflexivity. Qed.
+
+Lemma real_lookbacks : go_protocol_round_back = protocol_round_back /\
+                       forall e, In e go_lookbacks -> lookback_ok e = true.
+Proof. split; [vm_compute; reflexivity|]. apply forallb_forall. exact real_lookbacks_ok. Qed.
